@@ -39,7 +39,7 @@
 #include <unifex/just_error.hpp>
 #include <unifex/just_from.hpp>
 #include <unifex/defer.hpp>
-#include <unifex/stop_if_requested.hpp>
+#include <unifex/tracing/async_stack.hpp>
 using namespace unifex;
 using ex::dyn; using ex::erase; using ex::Mode;
 
@@ -343,7 +343,7 @@ struct Top final : ex::rcv_base {
   int custom() const noexcept override { return 9; }
 };
 
-struct Options { bool stop_events = true; bool faults = false; bool reactive = true; bool check_result = true; bool check_queries = true; bool known_lvss = false; bool ctx_check = false; };
+struct Options { bool stop_events = true; bool faults = false; bool reactive = true; bool check_result = true; bool check_queries = true; bool known_lvss = false; bool ctx_check = false; bool trace_notes = false; };
 
 std::string g_case;
 void fail(const char* props, const char* key, const std::string& msg) { vmcrt::fail(props, key, (msg + " | case: " + g_case + " | events: " + ex::g->trace).c_str()); }
@@ -409,13 +409,14 @@ void run_tree(Tree t, const Options& opt) {
     bool connect_threw = false;
     try {
       dyn d = build(t);
-      auto op = std::make_unique<dyn::op>(unifex::connect(d, ex::rref{&top}));
+      using top_op_t = decltype(unifex::connect(d, ex::rref{&top}));
+      std::unique_ptr<top_op_t> op(new top_op_t(unifex::connect(d, ex::rref{&top})));
       static Tree outer_tree; outer_tree.kind = -1;
       model.outer = model.make(&outer_tree, nullptr, 0);
       model.root = model.make(&t, nullptr, 0);
       if (opt.stop_events && vmc::choose(2)) { src->request_stop(); stop_sent = true; ctx.trace += "S "; }
       top.in_start = true;
-      op->start();
+      unifex::start(*op);
       top.in_start = false;
       model.outer->inner_stopped = stop_sent;
       model.start(model.root, model.outer, Exp{});
@@ -481,7 +482,12 @@ void run_tree(Tree t, const Options& opt) {
         if (ctx.sched_seen[i].alloc_tag != model.sched_exp[i].alloc) fail("C12", "sched-query-allocator", "a schedule() operation sees allocator " + std::to_string(ctx.sched_seen[i].alloc_tag) + ", expected " + std::to_string(model.sched_exp[i].alloc));
       }
     }
-    vmc::note(std::string(kname[t.kind]) + ":" + (connect_threw ? "X" : rstr(top.res)));
+    // C20: in trace mode the note is the canonical observation trace of this case (compared across build configurations)
+    if (opt.trace_notes) vmc::note(g_case + "|" + ctx.trace + "|" + (connect_threw ? "X" : rstr(top.res)) + "@" + std::to_string(top.ctx));
+    else vmc::note(std::string(kname[t.kind]) + ":" + (connect_threw ? "X" : rstr(top.res)));
+#if !UNIFEX_NO_ASYNC_STACKS
+    if (unifex::tryGetCurrentAsyncStackRoot() != nullptr) fail("C20", "async-stack-root", "an async stack root is still installed on this thread after the operation completed");
+#endif
   }
   ex::g = nullptr;
 }
@@ -506,14 +512,14 @@ std::vector<int> all_kinds() { std::vector<int> v; for (int k = THEN; k < NKIND;
 
 // depth 1: every adaptor over leaves (all outcomes / modes / event orders / stop positions / one throwing callable)
 VMC_SEQ_HARNESS(expr_d1, "C01,C02,C04,C05,C12") {
-  Options o; o.faults = true;
+  Options o; o.faults = true; o.trace_notes = vmcrt::arg(0, 0) != 0;
   run_tree(choose_tree(all_kinds(), {LEAF}, 1), o);
 }
 // depth 2: root = arg0 (one adaptor kind per run so that the work splits over checks), children over the
 // full alphabet, leaves below
 VMC_SEQ_HARNESS(expr_d2, "C01,C02,C04,C05,C12") {
   int root = vmcrt::arg(0, THEN);
-  Options o; o.faults = vmcrt::arg(1, 0) != 0; o.reactive = vmcrt::arg(2, 1) != 0; o.stop_events = vmcrt::arg(3, 1) != 0;
+  Options o; o.faults = vmcrt::arg(1, 0) != 0; o.reactive = vmcrt::arg(2, 1) != 0; o.stop_events = vmcrt::arg(3, 1) != 0; o.trace_notes = vmcrt::arg(4, 0) != 0;
   std::vector<int> inner = all_kinds(); inner.insert(inner.begin(), LEAF);
   run_tree(choose_tree({root}, inner, 2), o);
 }
